@@ -266,7 +266,7 @@ def core_profiles(extra=None, n=10, steps=40):
     q = [dict(n=n, steps=steps, backend="mem", regime="causal", profile="core"),
          dict(n=n, steps=steps, backend="sql", regime="causal", profile="core"),
          dict(n=n, steps=steps + 10, backend="mixed", regime="causal", retention=2, profile="members"),
-         dict(n=n, steps=steps + 10, backend="sql", regime="causal", profile="members"),
+         dict(n=n, steps=steps + 10, backend="sql", regime="causal", profile="members", groups=2),
          dict(n=12, backend="mixed", profile="fork")]
     t = [dict(n=60, backend=["mem", "sql", "mixed"][i % 3], profile="fork", retention=[5, 3, 6][i % 3]) for i in range(3)]
     for i in range(10):
@@ -328,7 +328,7 @@ def plan_C11(ctx, rt):
 
 
 def observer_profiles():
-    q = [dict(n=10, steps=60, backend="mixed", regime="causal", profile="members", observers=1),
+    q = [dict(n=10, steps=60, backend="mixed", regime="causal", profile="members", observers=1, groups=2),
          dict(n=10, steps=60, backend="sql", regime="causal", profile="members", observers=1, retention=2),
          dict(n=8, steps=50, backend="mem", regime="causal", profile="members", observers=1, restarts=0)]
     t = [dict(n=50, steps=70, backend=["mem", "sql", "mixed"][i % 3], regime="causal", profile="members", observers=1,
@@ -458,7 +458,7 @@ def plan_C14(ctx, rt):
 
 
 def junk_profiles():
-    q = [dict(n=8, steps=70, backend="mixed", regime="causal", profile="members", observers=1, junk=1),
+    q = [dict(n=8, steps=70, backend="mixed", regime="causal", profile="members", observers=1, junk=1, groups=2),
          dict(n=8, steps=60, backend="sql", regime="causal", profile="core", junk=1, retention=2),
          dict(n=8, steps=70, backend="mem", regime="causal", profile="members", junk=1)]
     t = [dict(n=40, steps=80, backend=["mem", "sql", "mixed"][i % 3], regime="causal", profile=["members", "core"][i % 2],
@@ -486,7 +486,7 @@ def plan_C06(ctx, rt):
 
 
 def adversary_profiles():
-    q = [dict(n=8, steps=80, backend="mixed", regime="causal", profile="members", adv=1),
+    q = [dict(n=8, steps=80, backend="mixed", regime="causal", profile="members", adv=1, groups=2),
          dict(n=8, steps=80, backend="sql", regime="causal", profile="members", adv=1, retention=2),
          dict(n=8, steps=70, backend="mem", regime="causal", profile="core", adv=1)]
     t = [dict(n=40, steps=90, backend=["mem", "sql", "mixed"][i % 3], regime="causal", profile=["members", "core"][i % 2],
